@@ -128,3 +128,4 @@ def run(ctx):
   check_display_prune(ctx, mk)
   check_children_order(ctx, mk)
   check_default_region(ctx)
+  common.check_history_independence(ctx, common.CORE)
